@@ -485,7 +485,7 @@ pub fn run_property(prop: &str, tier: &str, seed: u64, outdir: &str, driver: &st
     let ncorpus = cases.len();
     for mut c in (def.generate)(tier, &mut rng) {
         c.spec.id += ncorpus;
-        c.group += ncorpus + 1_000_000;
+        c.group += 1_000_000_000;
         cases.push(c);
     }
     let n = cases.len();
@@ -710,8 +710,9 @@ pub fn run_property(prop: &str, tier: &str, seed: u64, outdir: &str, driver: &st
     exit
 }
 
-/// corpus/<prop>.txt: one case per line: `<key> <model_route|-> <spec line as sent to workers>`;
-/// lines starting with '#' are comments.  Run before the generated cases on every run.
+/// corpus/<prop>.txt: one case per line:
+///   `<key> <group|-> <slice|-> <role|-> <model_route|-> <spec line as sent to workers>`
+/// (lines starting with '#' are comments).  Run before the generated cases on every run.
 pub fn load_corpus(prop: &str) -> Vec<Case> {
     let root = std::env::var("VERIF_ROOT").unwrap_or_else(|_| "/verif".into());
     let mut v = Vec::new();
@@ -721,20 +722,25 @@ pub fn load_corpus(prop: &str) -> Vec<Case> {
             if line.is_empty() || line.starts_with('#') {
                 continue;
             }
-            let mut it = line.splitn(3, ' ');
+            let mut it = line.splitn(6, ' ');
             let key = it.next().unwrap_or("-").to_string();
+            let grp = it.next().unwrap_or("-");
+            let slice = it.next().unwrap_or("-");
+            let role = it.next().unwrap_or("-");
             let mr = it.next().unwrap_or("-");
             let rest = it.next().unwrap_or("");
             let mut spec = line_to_spec(rest);
             spec.id = v.len();
             spec.want_dom = true;
             let id = v.len();
+            let slice: &'static str = if slice == "-" { "corpus" } else { Box::leak(slice.to_string().into_boxed_str()) };
+            let role: &'static str = if role == "-" { "corpus" } else { Box::leak(role.to_string().into_boxed_str()) };
             v.push(Case {
                 spec,
-                group: id,
+                group: grp.parse::<usize>().map(|g| 900_000_000 + g).unwrap_or(id),
                 model_route: mr.parse().ok(),
-                meta: Meta::G { role: "corpus", strs: vec![key], nums: vec![] },
-                slice: "corpus",
+                meta: Meta::G { role, strs: vec![key], nums: vec![] },
+                slice,
             });
         }
     }
